@@ -111,6 +111,13 @@ impl<'a> Emit<'a> {
                 let src = format!("{} {} {}", la, sym, lb);
                 let o = prog_apply(&src, &[]);
                 self.rec(op, "lit", a, b, &src, o);
+                // one shared operand (context variable), one temporary (literal)
+                let src = format!("a {} {}", sym, lb);
+                let o = prog_apply(&src, &vars);
+                self.rec(op, "varlit", a, b, &src, o);
+                let src = format!("{} {} b", la, sym);
+                let o = prog_apply(&src, &vars);
+                self.rec(op, "litvar", a, b, &src, o);
             }
         }
         if host && matches!(op, "add" | "sub" | "mul" | "div" | "rem") {
@@ -324,7 +331,7 @@ pub fn cmp_table(out: &mut dyn Write) -> usize {
 
 fn key_alphabet() -> Vec<Value> {
     let s = |x: &str| Value::String(Arc::new(x.to_string()));
-    vec![Value::Int(1), Value::UInt(1), Value::UInt(2), Value::Int(-1), Value::UInt(0), Value::Int(0), Value::Bool(true), s("a"), s("b"), s("k1")]
+    vec![Value::Int(1), Value::UInt(1), Value::UInt(2), Value::Int(-1), Value::UInt(0), Value::Int(0), Value::Bool(true), s("a"), s("b"), s("k1"), s("size")]
 }
 
 fn to_key(v: &Value) -> Key {
@@ -391,7 +398,8 @@ pub fn drive_c14(seed: u64, thorough: bool, out: &mut dyn Write) -> usize {
                 if s.chars().all(|c| c.is_ascii_alphanumeric()) {
                     let src = format!("m.{}", s);
                     let o = prog_apply(&src, &vars);
-                    e.rec("sel", "var", &m, q, &src, o);
+                    // "self": the field is also the name of a registered function (a key still wins)
+                    e.rec(if s.as_str() == "size" { "self" } else { "sel" }, "var", &m, q, &src, o);
                     let src = format!("has(m.{})", s);
                     let o = prog_apply(&src, &vars);
                     e.rec("has", "var", &m, q, &src, o);
